@@ -175,6 +175,48 @@ def r2(ctx):
         tup = subs[0].args[1].elts
         ok = len(tup) == len(params) and all((not isinstance(a, ast.Name)) or a.id == p for a, p in zip(tup, params))
     ctx.ob(fi.qual, "job-arguments-match-parameters", ok, fi.loc(subs[0]) if subs else fi.loc(), "the argument tuple of apply_async lines up with phase_single_block_mt's parameters (block_id travels with its interval)" if ok else "apply_async argument tuple does not line up with phase_single_block_mt%s" % (tuple(params),))
+    # sibling agreement: the single-threaded call and the pool wrapper hand phase_single_block the same job
+    import copy
+
+    class Subst(ast.NodeTransformer):
+        def __init__(self, env):
+            self.env = env
+
+        def visit_Name(self, node):
+            if isinstance(node.ctx, ast.Load) and node.id in self.env:
+                return copy.deepcopy(self.env[node.id])
+            return node
+
+    def inline(fnode, expr, extra_env=None):
+        """Replace local names that have a single definition in ``fnode`` (and parameters bound in extra_env)."""
+        env = dict(extra_env or {})
+        for _ in range(3):
+            changed = False
+            for n in list(ast.walk(expr)):
+                if isinstance(n, ast.Name) and isinstance(n.ctx, ast.Load) and n.id not in env:
+                    d = util.single_def(fnode, n.id)
+                    if d is not None and not isinstance(d, ast.Call) or (d is not None and isinstance(d, ast.Call) and u(d.func).endswith("extractInterval")):
+                        env[n.id] = d
+                        changed = True
+                    elif d is not None and isinstance(d, ast.IfExp):
+                        env[n.id] = d
+                        changed = True
+            expr = Subst(env).visit(copy.deepcopy(expr))
+            if not changed:
+                break
+        return expr
+
+    st_calls = [c for c in ctx.prog.calls_in(fi.node, include_nested=True) if u(c.func) == "phase_single_block"]
+    mt_inner = [c for c in ctx.prog.calls_in(mt.node) if u(c.func) == "phase_single_block"]
+    ok = len(st_calls) == 1 and len(mt_inner) == 1 and len(subs) == 1 and isinstance(subs[0].args[1], ast.Tuple)
+    detail = "call sites not found"
+    if ok:
+        bind = dict(zip(params, subs[0].args[1].elts))
+        st_args = [u(inline(fi.node, copy.deepcopy(a))) for a in st_calls[0].args[:4]]
+        mt_args = [u(inline(fi.node, inline(mt.node, copy.deepcopy(a), bind))) for a in mt_inner[0].args[:4]]
+        ok = st_args == mt_args
+        detail = "single-threaded: %s; pool: %s" % (st_args, mt_args)
+    ctx.ob(fi.qual, "single-thread-and-pool-build-the-same-job", ok, fi.loc(subs[0]) if subs else fi.loc(), "for a block the pool worker calls phase_single_block with the same (block id, matrix interval, genotype slice, pre-phasing interval) as the single-threaded branch" if ok else "the pool branch and the single-threaded branch hand phase_single_block different inputs, so the result depends on --threads: " + detail)
     # nowhere in the package: unordered pool APIs
     bad = []
     for f2 in ctx.prog.functions.values():
@@ -305,4 +347,4 @@ RULES = [
     ("C16.R3", "total order on reads; duplicates rejected; positions sorted (clang)", r3),
     ("C16.R4", "no pointer-keyed containers in the C++ sources", r4),
 ]
-FLOORS = {"C16.R1": 10, "C16.R2": 5, "C16.R3": 6, "C16.R4": 1}
+FLOORS = {"C16.R1": 10, "C16.R2": 6, "C16.R3": 6, "C16.R4": 1}
